@@ -97,6 +97,8 @@ func TestReplay(t *testing.T) {
 		probeEvalCmd(t, c)
 	case "hookfilter":
 		probeHookFilter(t, c)
+	case "poolacct":
+		runPoolAccounting(t, c, 210)
 	case "mutated":
 		var d struct {
 			Case mutCase `json:"case"`
